@@ -98,8 +98,15 @@ def traces(ctx, test, env, name, cfg="TraceSession.cfg"):
     out = os.path.join(ctx.work, name + ".ndjson")
     e = dict(env)
     e["ZZV_OUT"] = out
-    r = ctx.gotest("crypto", HFILES, "^%s$" % test, env=e, race=(test == "TestZZVSessionConc"))
+    conc = (test == "TestZZVSessionConc")
+    r = ctx.gotest("crypto", HFILES, "^%s$" % test, env=e, race=conc, allow_fail=conc)
     summ = r.of("summary")
+    if conc and summ:
+        # the race detector fails the test binary; a race inside SessionKey is reported by the caller
+        summ[0]["data_race"] = ("WARNING: DATA RACE" in r.out and "SessionKey" in r.out)
+        summ[0]["race_excerpt"] = r.out[r.out.find("WARNING: DATA RACE"):][:1500] if summ[0]["data_race"] else ""
+        if r.rc != 0 and not summ[0]["data_race"]:
+            raise vf.Infra("concurrent harness failed:\n" + r.out[-2000:])
     if not summ:
         raise vf.Infra("trace harness produced no summary")
     res = ctx.tlc("TraceSession", cfg, workers=1, env={"TRACE_FILE": out}, expect_violation=True,
